@@ -3,6 +3,7 @@
 //
 // usage: c14_tridiag enumerate <quick|thorough> <part> <nparts>     (prints STAT/SAMPLE/VIOL lines)
 //        c14_tridiag replay  < spec-lines                            (same check on given systems)
+#include <map>
 #include <algorithm>
 #include <cinttypes>
 #include <cmath>
@@ -26,7 +27,7 @@ struct Sys {
     std::string family;
 };
 
-static long g_systems = 0, g_spd = 0, g_solves = 0, g_viol = 0, g_hist = 0;
+static long g_systems = 0, g_spd = 0, g_solves = 0, g_viol = 0, g_hist = 0, g_assign = 0;
 static double g_worst_nc = 0, g_worst_cy = 0, g_worst_diag = 0;
 static std::set<std::string> g_distinct;
 static int g_samples = 0;
@@ -238,6 +239,54 @@ static void checkSystem(const Sys& A, int histDepth)
                 }
             }
         }
+    }
+    // (d) the same object takes over ANOTHER system: an object that has solved the previous SPD system P of this size is
+    //     assigned a fresh solver holding A (copy and move), and a fresh object is assigned the used solver of A; each must
+    //     then solve A exactly like a fresh object does ("every system, every time" includes how the system got there)
+    {
+        static std::map<int, Sys> prev;
+        auto it = prev.find(n);
+        if (it != prev.end()) {
+            const Sys& P = it->second;
+            const int k  = (int)rhs.size() - 3;
+            for (int variant = 0; variant < 3; variant++) {
+                SymmetricTridiagonalSolver<double> U(n);
+                loadSolver(U, P);
+                std::vector<double> w = rhs[k];
+                U.solveInPlace(w.data(), t1.data(), P.cyclic ? t2.data() : nullptr); // U is factorised for P
+                SymmetricTridiagonalSolver<double> F(n);
+                loadSolver(F, A);
+                SymmetricTridiagonalSolver<double> G(n);
+                const char* name;
+                SymmetricTridiagonalSolver<double>* target;
+                if (variant == 0) {
+                    U      = F; // copy-assign a fresh system into a used object
+                    target = &U;
+                    name   = "copy-into-used";
+                }
+                else if (variant == 1) {
+                    U      = std::move(F);
+                    target = &U;
+                    name   = "move-into-used";
+                }
+                else {
+                    G      = S; // S has solved A many times
+                    target = &G;
+                    name   = "copy-from-used";
+                }
+                std::vector<double> x = rhs[k];
+                target->solveInPlace(x.data(), t1.data(), A.cyclic ? t2.data() : nullptr);
+                g_solves++;
+                g_assign++;
+                if (memcmp(x.data(), firstResult[k].data(), sizeof(double) * n) != 0) {
+                    emitViol(std::string("assign:") + name + (A.cyclic ? ":cyclic" : ":plain"),
+                             "an object that was assigned this system solves it differently from a fresh object", A,
+                             "previous system " + specOf(P));
+                    return;
+                }
+            }
+        }
+        prev[n] = A;
     }
     if (g_distinct.size() < 200000)
         g_distinct.insert(specOf(A));
@@ -495,6 +544,7 @@ int main(int argc, char** argv)
     }
     printf("STAT systems %ld\nSTAT spd %ld\nSTAT solves %ld\nSTAT histories %ld\nSTAT distinct %zu\n", g_systems,
            g_spd, g_solves, g_hist, g_distinct.size());
+    printf("STAT assignments %ld\n", g_assign);
     printf("STAT worst_ratio_plain %.6g\nSTAT worst_ratio_cyclic %.6g\nSTAT worst_ulps_diagonal %.6g\nSTAT violations %ld\n",
            g_worst_nc, g_worst_cy, g_worst_diag, g_viol);
     return 0;
